@@ -1725,11 +1725,12 @@ class Frame(object):
                     break
             else:
                 return vals[-1]
-        if d is not None and all(isinstance(v, Const) and isinstance(v.value, bool) for v in vals if self.truth(v) is not None):
-            return Const(d)          # (as a value `x or <truthy object>` is x-or-the-object, not True)
+        if d is not None and (not self.sc.extended or
+                              all(isinstance(v, Const) and isinstance(v.value, bool) for v in vals if self.truth(v) is not None)):
+            return Const(d)          # (extended scenarios: as a value `x or <truthy object>` is x-or-the-object, not True)
         op = ' or ' if isinstance(node.op, ast.Or) else ' and '
         k = 0
-        while k < len(vals) - 1 and self.truth(vals[k]) is not None:
+        while self.sc.extended and k < len(vals) - 1 and self.truth(vals[k]) is not None:
             k += 1          # leading operands of known (neutral) truth do not contribute to the value: `False or x` is x
         if k and len(vals) - k == 1:
             return vals[k]
